@@ -46,9 +46,9 @@ func (v *Validator) ValidateAll(ctx context.Context) (*ValidationReport, error) 
 		Results:   []ValidationResult{},
 	}
 
-	// Find PartStore using reflection
-	partStore := findPartStore(v.storage)
-	if partStore == nil {
+	// Find the part stores using reflection
+	partStores := findPartStores(v.storage)
+	if partStores == nil {
 		return nil, fmt.Errorf("could not find PartStore in storage hierarchy")
 	}
 
@@ -102,7 +102,7 @@ func (v *Validator) ValidateAll(ctx context.Context) (*ValidationReport, error) 
 			slog.Info(fmt.Sprintf("Validating object %d (Bucket: %s, Object: %s) - Rate: %.2f obj/s",
 				processedObjects, bucket.Name, object.Key, rate))
 
-			result := v.validateObject(ctx, db, partStore, partRepo, objectRepo, bucket.Name, object)
+			result := v.validateObject(ctx, db, partStores, partRepo, objectRepo, bucket.Name, object)
 			report.Results = append(report.Results, result)
 
 			if result.Success {
@@ -133,7 +133,7 @@ func (v *Validator) ValidateAll(ctx context.Context) (*ValidationReport, error) 
 	return report, nil
 }
 
-func (v *Validator) validateObject(ctx context.Context, db database.Database, partStore partstore.PartStore,
+func (v *Validator) validateObject(ctx context.Context, db database.Database, partStores *partstore.NamedPartStores,
 	partRepo part.Repository, objectRepo object.Repository,
 	bucketName storage.BucketName, object storage.Object) ValidationResult {
 
@@ -164,8 +164,12 @@ func (v *Validator) validateObject(ctx context.Context, db database.Database, pa
 		var partChecksums []storage.ChecksumValues
 
 		for _, part := range parts {
-			// Read part content
-			reader, err := partStore.GetPart(ctx, tx, part.PartId)
+			// Read part content from the store recorded on the part row
+			partStore, err := partStores.ByName(part.PartStoreName)
+			var reader io.ReadCloser
+			if err == nil {
+				reader, err = partStore.GetPart(ctx, tx, part.PartId)
+			}
 			if err != nil {
 				result.Success = false
 				result.ErrorType = "Part retrieval failed"
@@ -382,7 +386,10 @@ func (v *Validator) confirmDeletion(result ValidationResult) bool {
 	return false
 }
 
-func findPartStore(s interface{}) partstore.PartStore {
+// findPartStores locates the set of part stores behind a storage: the named
+// store set of the metadata/part storage, or a plain PartStore field (wrapped
+// as the default store), searching through wrapped storages.
+func findPartStores(s interface{}) *partstore.NamedPartStores {
 	val := reflect.ValueOf(s)
 	if val.Kind() == reflect.Ptr {
 		val = val.Elem()
@@ -391,14 +398,24 @@ func findPartStore(s interface{}) partstore.PartStore {
 		return nil
 	}
 
-	// Check if any field is a PartStore
+	// Check if any field is the named store set or a PartStore
+	namedPartStoresType := reflect.TypeOf((*partstore.NamedPartStores)(nil))
 	partStoreType := reflect.TypeOf((*partstore.PartStore)(nil)).Elem()
 
 	for i := 0; i < val.NumField(); i++ {
 		field := val.Field(i)
+		if field.Type() == namedPartStoresType {
+			// Handle unexported fields
+			if stores := reflect.NewAt(field.Type(), unsafe.Pointer(field.UnsafeAddr())).Elem().Interface().(*partstore.NamedPartStores); stores != nil {
+				return stores
+			}
+		}
 		if field.Type().Implements(partStoreType) {
 			// Handle unexported fields
-			return reflect.NewAt(field.Type(), unsafe.Pointer(field.UnsafeAddr())).Elem().Interface().(partstore.PartStore)
+			partStore, _ := reflect.NewAt(field.Type(), unsafe.Pointer(field.UnsafeAddr())).Elem().Interface().(partstore.PartStore)
+			if stores, err := partstore.NewNamedPartStores(partStore, nil, nil); err == nil {
+				return stores
+			}
 		}
 	}
 
@@ -409,8 +426,8 @@ func findPartStore(s interface{}) partstore.PartStore {
 		if field.Type().Implements(storageType) {
 			// Recurse
 			inner := reflect.NewAt(field.Type(), unsafe.Pointer(field.UnsafeAddr())).Elem().Interface()
-			if bs := findPartStore(inner); bs != nil {
-				return bs
+			if stores := findPartStores(inner); stores != nil {
+				return stores
 			}
 		}
 	}
